@@ -35,6 +35,7 @@ type vcAxiom struct {
 	text  string
 	syms  []string
 	label string
+	def   bool // defining axiom of a spec function: relevance is transitive through other definitions
 }
 
 // UsedAxioms: labels of the axioms whose symbols occur somewhere in this VC.
@@ -70,7 +71,15 @@ func (v *VC) AddAxiom(term, label string) {
 			syms = append(syms, m)
 		}
 	}
-	v.axioms = append(v.axioms, vcAxiom{fmt.Sprintf("(assert %s)", term), syms, label})
+	v.axioms = append(v.axioms, vcAxiom{text: fmt.Sprintf("(assert %s)", term), syms: syms, label: label})
+}
+
+var sfSymRe = regexp.MustCompile(`sf![A-Za-z0-9_]+`)
+
+// AddSpecAxiom: the defining axiom of a spec function; relevant to a query when the function occurs in it (directly or
+// through the definition of another relevant spec function).
+func (v *VC) AddSpecAxiom(term, sym, label string) {
+	v.axioms = append(v.axioms, vcAxiom{text: fmt.Sprintf("(assert %s)", term), syms: []string{sym}, label: label, def: true})
 }
 
 func NewVC(smtStrings bool) *VC {
@@ -129,6 +138,9 @@ func (v *VC) Tag(name string) int {
 	t := len(v.tags) + 1
 	v.tags[name] = t
 	v.tagNames = append(v.tagNames, name)
+	// ptrtag: the dynamic type is a pointer, map, channel or function type (its boxed value 0 is a nil of that type)
+	isPtr := strings.HasPrefix(name, "*") || strings.HasPrefix(name, "map[") || strings.HasPrefix(name, "chan ") || strings.HasPrefix(name, "func(")
+	v.Fact(fmt.Sprintf("(= (ptrtag %d) %v)", t, isPtr))
 	return t
 }
 
@@ -173,6 +185,7 @@ const preamble = `(define-fun godiv ((a Int) (b Int)) Int (ite (>= a 0) (ite (> 
 (define-fun gomod ((a Int) (b Int)) Int (- a (* b (godiv a b))))
 (declare-datatypes ((Any 0)) (((A_nil) (A_box (a_tag Int) (a_val Int)))))
 (declare-fun ceil! (Real) Real)
+(declare-fun ptrtag (Int) Bool)
 `
 
 func (v *VC) header() string {
@@ -291,22 +304,36 @@ func (o *Obligation) Query(extra string) string {
 		body.WriteByte('\n')
 	}
 	bodyS := body.String()
-	for _, ax := range v.axioms {
-		use := true
-		for _, sy := range ax.syms {
-			if strings.HasPrefix(sy, "str!") {
-				continue // literals are always declared; they do not make an axiom relevant by themselves
+	used := make([]bool, len(v.axioms))
+	axText, plainAx := "", ""
+	for changed := true; changed; {
+		changed = false
+		for i, ax := range v.axioms {
+			if used[i] {
+				continue
 			}
-			if !strings.Contains(bodyS, sy) && !strings.Contains(goal, sy) {
-				use = false
-				break
+			use := true
+			for _, sy := range ax.syms {
+				if strings.HasPrefix(sy, "str!") {
+					continue // literals are always declared; they do not make an axiom relevant by themselves
+				}
+				if !containsSym(bodyS, sy) && !containsSym(goal, sy) && !containsSym(axText, sy) {
+					use = false
+					break
+				}
 			}
-		}
-		if use {
-			b.WriteString(ax.text)
-			b.WriteByte('\n')
+			if use {
+				used[i], changed = true, true
+				if ax.def {
+					axText += ax.text + "\n"
+				} else {
+					plainAx += ax.text + "\n"
+				}
+			}
 		}
 	}
+	b.WriteString(plainAx)
+	b.WriteString(axText)
 	b.WriteString(bodyS)
 	if len(o.Disj) == 1 {
 		fmt.Fprintf(&b, "(assert %s)\n", o.Disj[0])
@@ -511,5 +538,20 @@ func solveOne(o *Obligation, outDir string, timeoutS int) {
 	o.Result, o.Backend, o.Seconds, o.Raw = r.res, r.backend, r.secs, r.raw
 	if r.res == "sat" && len(o.ModelK) > 0 {
 		o.Values = parseValues(r.raw, o)
+	}
+}
+
+// containsSym: sy occurs in text as a whole symbol (sf!ok is not found inside sf!okay).
+func containsSym(text, sy string) bool {
+	for off := 0; ; {
+		i := strings.Index(text[off:], sy)
+		if i < 0 {
+			return false
+		}
+		j := off + i + len(sy)
+		if j >= len(text) || text[j] == ' ' || text[j] == ')' || text[j] == '\n' {
+			return true
+		}
+		off = j
 	}
 }
